@@ -298,8 +298,8 @@ Lemma enqueue_bytes_flushing s m : flushing s ->
   flushing (enqueue_bytes_and_send s m) /\ s_wire (enqueue_bytes_and_send s m) = m :: s_wire s
   /\ s_msgs (enqueue_bytes_and_send s m) = s_msgs s.
 Proof.
-  intros [Ho Hq]. unfold enqueue_bytes_and_send, send_queued, enqueue, upd_to_send. cbn [s_out_open s_to_send]. rewrite Ho, Hq.
-  cbn. repeat split; try reflexivity; exact Ho.
+  intros [Ho Hq]. unfold enqueue_bytes_and_send, send_queued, enqueue, drop_queued, upd_to_send.
+  destruct (is_logged_on (s_st s)); cbn [s_out_open s_to_send]; rewrite Ho, ?Hq; cbn; repeat split; try reflexivity; exact Ho.
 Qed.
 
 Lemma gen_seq_reset_flushing s b e ir : flushing s ->
